@@ -1,21 +1,79 @@
 PROP = {
     "lean_modules": ["GunYu.Props.C05"],
     "audit_namespaces": ["GunYu.Props.C05"],
-    "required_theorems": [],
+    "required_theorems": [
+        "GunYu.Props.C05.disk_reader_delivers",
+        "GunYu.Props.C05.disk_history_records_appends",
+        "GunYu.Props.C05.disk_snapshot_reader_delivers",
+        "GunYu.Props.C05.disk_gc_keeps_contiguous_suffix",
+        "GunYu.Props.C05.disk_range_contiguous",
+        "GunYu.Props.C05.disk_closed_reader_read_fails",
+        "GunYu.Props.C05.disk_closed_reader_frozen",
+        "GunYu.Props.C05.disk_reset_closes_readers",
+        "GunYu.Props.C05.disk_writer_replacement_closes_stream_readers",
+        "GunYu.Props.C05.disk_reader_progress",
+        "GunYu.Props.C05.disk_valid_iff_readable",
+        "GunYu.Props.C05.disk_snapshot_offered_iff_complete",
+        "GunYu.Props.C05.mem_refuses_discontinuous",
+        "GunYu.Props.C05.mem_accepted_writer_is_continuous",
+        "GunYu.Props.C05.mem_gc_keeps_contiguous_suffix",
+        "GunYu.Props.C05.mem_snapshot_offered_iff_replayable",
+        "GunYu.Props.C05.mem_finish_keeps_only_complete",
+        "GunYu.Props.C05.mem_collected_snapshot_not_offered",
+        "GunYu.Props.C05.mem_copy_step_faithful",
+        "GunYu.Props.C05.mem_reset_empties_index",
+        "GunYu.Props.C05.mem_stale_reader_has_no_successor",
+    ],
     "expected_facts": {},
     "harness": [
         {"name": "C05", "pkg": "./pkg/store/", "test": "TestVerifC05"},
         {"name": "C05mem", "pkg": "./syncer/", "test": "TestVerifC05mem"},
     ],
     "driver": "drv_C05",
-    "rule": "",
-    "trusted": [],
-    "assumptions": [],
-    "partial": [],
+    "rule": "generated operation sequences (150-250 ops per case; LogSize 32..256, MaxSize 2..7 segments or 0) executed sequentially "
+            "against the REAL store.Storer on a temp dir (collector stopped and invoked through VerifGcLog; AOF writer driven through "
+            "AofRotater.write, snapshot writer through RdbWriter.Start/ingest fed by a step reader, readers through "
+            "AofRotateReader.read / RdbReader.read; a quarter of the reads force a collector pass INSIDE the reader's rotation step via "
+            "its close observer) and against the REAL MemoryChannel inside a testing/synctest bubble (writers through Start/ingest, "
+            "readers through Start/copy loop/pipe, synctest.Wait after every op; Start sometimes delayed so that segments stay pinned; "
+            "appends that block on capacity stay blocked until space is freed). After EVERY op: IsValidOffset at the offsets around every "
+            "boundary, GetOffsetRange, GetRdb, LatestOffset/StartPoint, and the internal index (segments with sizes and reference counts, "
+            "snapshot, directory listing / totalSize) are compared line by line with the Lean model; every byte read is compared with the "
+            "model and, independently, with the bytes the harness wrote at that offset (monitor), plus: valid => readable, offered snapshot "
+            "=> complete or live, invalidated reader ends or fails, no operation hangs. distinct_nontrivial = cases with rotation and a reader "
+            "that crossed a segment boundary",
+    "trusted": [
+        "testing/synctest quiescence (memory harness): after synctest.Wait every goroutine of the channel is durably blocked",
+        "reference counts are derived from the reader list in the model; the harness compares them with rwRef / readers.Load() after every op",
+    ],
+    "assumptions": [
+        "callers' protocol (Disk.okOp): a disk stream writer continues where the held stream ends (input.go/replica.go pass LatestOffset / the snapshot offset); "
+        "the disk backend itself does not check this (the memory backend does: mem_refuses_discontinuous)",
+        "SetRunId re-scan / id switch on the disk backend only with no reader or writer open (a re-scan swaps the index under open readers); DelRunId and new snapshots at any time",
+        "thread interleavings INSIDE one mutex-protected step and the 10 ms poll / os.Stat race of tryReadNextFile are outside the step-level model; "
+        "a real-goroutine stress phase (writer closed while an endless 1-byte source is being ingested) supports the tie and found D26",
+        "memory harness: an append is limited to one mutex-protected piece whenever the collector could run inside it (between two pieces the copy goroutines race with the writer)",
+        "StoreChannel's thin run-id wrappers (syncer/channel.go) are not driven by the disk harness; MemoryChannel's are",
+    ],
+    "partial": [
+        "mem_reader_delivers_stmt (global refinement of the memory backend over operation lists) is stated, not proved; proved for memory are the step-level theorems "
+        "(every state, hence every interleaving): refusal of discontinuous writers, collector removes only a closed unreferenced prefix, snapshot offered iff replayable + "
+        "finishRdb/collector make it unreplayable when incomplete, copy steps deliver exactly the held segment's bytes, reset empties the index and successor lookup is by identity",
+        "disk refinement as a single `abs` commuting diagram is not stated; its content is proved as invariants over all well-formed operation lists "
+        "(disk_reader_delivers, disk_range_contiguous, disk_valid_iff_readable, disk_snapshot_offered_iff_complete, disk_gc_keeps_contiguous_suffix)",
+        "the concurrent stress phase covers the memory writer close/rotation race only; a full -race run with several readers, writer and collector is not part of the check",
+    ],
 }
 
 MANIFEST = {
-    "text": "",
-    "note": "",
-    "technique": "",
+    "text": "Step-level Lean models of the disk index (Storer/dataSet/AofRotater/AofRotateReader/RdbWriter) and of MemoryChannel; a reader's move to the next segment is two "
+            "steps so the collector can interleave. Proved for ALL operation lists respecting the callers' protocol (disk): every open stream reader delivered exactly the "
+            "bytes appended at [start,pos), snapshot readers exactly the snapshot bytes, closed/invalidated readers fail and never deliver again, resets and writer "
+            "replacement close readers, a valid reader can always make progress, held range contiguous, IsValidOffset <-> GetReader finds data, snapshot offered <-> complete or "
+            "being written, collector drops only an unreferenced prefix. Memory: step-level theorems for every state (refusal of discontinuous writers, collector, snapshot "
+            "offer, faithful copy steps, identity-based successor). Tie: generated op sequences on the real Storer and the real MemoryChannel (synctest), every answer, "
+            "reference count and byte compared with the model and with independent bookkeeping.",
+    "note": "trusted: Lean kernel, harness, synctest quiescence; assumptions: callers' protocol for disk writers, no re-scan with open readers; partial: global memory refinement stated not proved. "
+            "Defects fixed: D14 (memory+disk), D17, D20-D25 (see known_findings.d/C05.json).",
+    "technique": "Lean 4 proof (invariant over arbitrary operation lists, step-level refinement) + differential correspondence on generated operation sequences",
 }
